@@ -1819,6 +1819,8 @@ class Frame:
 
     def e_Subscript(self, e, st):
         base = self.eval(e.value, st)
+        if isinstance(e.slice, ast.Slice) and e.slice.lower is None and e.slice.upper is None and e.slice.step is None:
+            return base  # x[:] is a copy of x: the same value
         idx = self.eval_index(e.slice, st)
         if isinstance(e.slice, ast.Slice) and e.slice.lower is None and e.slice.upper is None and isinstance(e.slice.step, ast.UnaryOp) and isinstance(e.slice.step.op, ast.USub) and isinstance(e.slice.step.operand, ast.Constant) and e.slice.step.operand.value == 1:
             if isinstance(base, (AList, ATuple)) and not getattr(base, "doms", None):
